@@ -86,6 +86,76 @@ Proof.
     replace (length D - N.to_nat (ap_digits_ahead p - 1))%nat with (S (length D) - N.to_nat (ap_digits_ahead p))%nat by lia. exact AL.
 Qed.
 
+(* ---- the exact effect of one X12Plan step, and the invariant of a running X12 run ---- *)
+Definition xtrig (p : x12_plan) : bool :=
+  (xp_values p =? 0) && (ctx_left (xp_ctx p) <=? 2) && (match xp_ascii_end p with None => true | _ => false end).
+
+Lemma xp_look_cases sl p ch D : c_data (xp_ctx p) = ch :: D ->
+  (xtrig p = false /\ xp_look sl p = Ok (Some p)) \/
+  (xtrig p = true /\ (xp_look sl p = Ok None \/
+     exists p1 f, xp_look sl p = Ok (Some p1) /\ xp_ctx p1 = xp_ctx p /\ xp_values p1 = xp_values p /\ xp_ascii_end p1 = Some f)).
+Proof.
+  intros HD. unfold xp_look, xtrig. pose proof (ctx_left_cons _ _ _ HD) as CL.
+  destruct ((xp_values p =? 0) && (ctx_left (xp_ctx p) <=? 2) && (match xp_ascii_end p with None => true | _ => false end)) eqn:C; [|left; split; reflexivity].
+  right. split; [reflexivity|].
+  apply andb_true_iff in C. destruct C as [C AE]. apply andb_true_iff in C. destruct C as [_ C]. apply N.leb_le in C.
+  assert (xp_ascii_end p = None) as AN by (destruct (xp_ascii_end p); [discriminate|reflexivity]).
+  assert (ctx_left (xp_ctx p) = 1 \/ ctx_left (xp_ctx p) = 2 \/ ctx_left (xp_ctx p) = 3 \/ ctx_left (xp_ctx p) = 4) as FD by lia.
+  cbv zeta. set (asz := ascii_encoding_size (c_data (xp_ctx p))).
+  destruct (frac_new_ok asz _ FD) as [f F].
+  destruct (asz =? 1).
+  - destruct (ctx_symbol_size_left sl (xp_ctx p) asz) as [space|]; [|left; reflexivity].
+    destruct (space <=? 1).
+    + rewrite F. cbn [bind xp_ascii_end]. right. do 2 eexists. split; [reflexivity|]. cbn [xp_ctx xp_values xp_ascii_end]. repeat split.
+    + cbn [bind]. rewrite AN, F. cbn [bind]. right. do 2 eexists. split; [reflexivity|]. cbn [xp_ctx xp_values xp_ascii_end]. repeat split.
+  - cbn [bind]. rewrite AN, F. cbn [bind]. right. do 2 eexists. split; [reflexivity|]. cbn [xp_ctx xp_values xp_ascii_end]. repeat split.
+Qed.
+
+Lemma xp_step_exact sl p ch D sr p' : c_data (xp_ctx p) = ch :: D -> xp_step sl p = Ok (Some (sr, p')) ->
+  c_data (xp_ctx p') = D /\
+  ((xp_ascii_end p' = None /\ xp_ascii_end p = None /\ xtrig p = false /\ is_native_x12 ch = true /\ xp_values p' = (xp_values p + 1) mod 3) \/
+   (exists f, xp_ascii_end p' = Some f /\ xp_values p' = xp_values p /\ (xp_ascii_end p = None -> xtrig p = true))).
+Proof.
+  intros HD H. rewrite xp_step_eq, (ctx_more_cons _ _ _ HD) in H. cbn [negb] in H.
+  destruct (xp_look_cases sl p ch D HD) as [[T E]|[T [E|(p1 & f & E & C1 & V1 & A1)]]]; rewrite E in H; cbn [bind] in H; try discriminate.
+  - rewrite (ctx_eat_cons _ _ _ HD) in H. destruct (xp_ascii_end p) as [f|] eqn:AE.
+    + inversion H; subst. cbn [xp_ctx xp_ascii_end xp_values]. split; [reflexivity|]. right. exists f. split; [reflexivity|]. split; [reflexivity|discriminate].
+    + destruct (is_native_x12 ch) eqn:NA; cbn [negb] in H; [|discriminate]. inversion H; subst. cbn [xp_ctx xp_ascii_end xp_values].
+      split; [destruct (_ =? 0); reflexivity|]. left. repeat split; assumption.
+  - assert (c_data (xp_ctx p1) = ch :: D) as HD1 by (rewrite C1; exact HD). rewrite (ctx_eat_cons _ _ _ HD1), A1 in H. inversion H; subst.
+    cbn [xp_ctx xp_ascii_end xp_values]. split; [reflexivity|]. right. exists f. split; [reflexivity|]. split; [exact V1|intros _; exact T].
+Qed.
+
+Definition natives (l : list N) : Prop := forallb is_native_x12 l = true.
+(* RS = the characters from the start of the run, c of them consumed *)
+Definition XI (RS : list N) (c : nat) (p : x12_plan) : Prop :=
+  match xp_ascii_end p with
+  | None => xp_values p = N.of_nat c mod 3 /\ natives (firstn c RS)
+  | Some _ => exists c0, (c0 <= c)%nat /\ (c0 mod 3 = 0)%nat /\ (length RS - c0 <= 2)%nat /\ natives (firstn c0 RS)
+  end.
+
+Lemma firstn_S_skipn {A} (l : list A) c x r : skipn c l = x :: r -> firstn (S c) l = firstn c l ++ [x].
+Proof.
+  revert l. induction c as [|c IH]; intros l H; destruct l as [|y l']; cbn [skipn] in H; try discriminate.
+  - inversion H; subst. reflexivity.
+  - cbn [firstn app]. f_equal. apply IH. exact H.
+Qed.
+
+Lemma x12_inv_step sl RS c p ch D sr p' : skipn c RS = ch :: D -> length RS = (c + S (length D))%nat ->
+  c_data (xp_ctx p) = ch :: D -> XI RS c p -> xp_step sl p = Ok (Some (sr, p')) -> XI RS (S c) p'.
+Proof.
+  intros SK LR HD HX H. destruct (xp_step_exact sl p ch D sr p' HD H) as (_ & [(A1 & A0 & T & NA & V)|(f & A1 & V & T)]); unfold XI in *.
+  - rewrite A1. rewrite A0 in HX. destruct HX as [HV HN]. split.
+    + rewrite V, HV. replace (N.of_nat (S c)) with (N.of_nat c + 1) by lia. rewrite N.add_mod_idemp_l by lia. reflexivity.
+    + unfold natives in *. rewrite (firstn_S_skipn RS c ch D SK), forallb_app, HN. cbn [forallb]. rewrite NA. reflexivity.
+  - rewrite A1. destruct (xp_ascii_end p) as [f0|] eqn:A0.
+    + destruct HX as (c0 & X1 & X2 & X3 & X4). exists c0. repeat split; try assumption. lia.
+    + destruct HX as [HV HN]. specialize (T eq_refl). unfold xtrig in T. apply andb_true_iff in T. destruct T as [T _]. apply andb_true_iff in T. destruct T as [T1 T2].
+      apply N.eqb_eq in T1. apply N.leb_le in T2. rewrite (ctx_left_cons _ _ _ HD) in T2.
+      exists c. split; [lia|]. split; [|split; [lia|exact HN]].
+      rewrite T1 in HV. symmetry in HV. apply N.mod_divide in HV; [|lia]. destruct HV as [q HQ]. assert (c = (N.to_nat q * 3)%nat) as -> by lia. apply Nat.mod_mul. lia.
+Qed.
+
 Section Align.
 Variable sl : list SymbolSize.
 Variable data : list N.
@@ -102,9 +172,14 @@ Proof.
   symmetry. apply (SK _ _ ch). symmetry. exact H.
 Qed.
 
+(* an X12 run from pi to pj: native characters in whole triples; the last run may leave up to two characters to ASCII *)
+Definition x12_run (pi pj : N) : Prop :=
+  let L := (N.to_nat pi - N.to_nat pj)%nat in
+  (0 < pj -> (L mod 3 = 0)%nat /\ natives (firstn L (suffix pi))) /\ (pj = 0 -> natives (firstn (3 * (L / 3)) (suffix pi))).
 Definition run_ok (pi : N) (mi : EncodationType) (pj : N) : Prop :=
   pj < pi /\ (N.to_nat pi <= n)%nat /\
-  (mi = Ascii -> aligned (suffix pi) (N.to_nat pj)) /\ (mi = Base256 -> pi - pj <= 1556 /\ (0 < pj -> pi - pj <= 1555)).
+  (mi = Ascii -> aligned (suffix pi) (N.to_nat pj)) /\ (mi = Base256 -> pi - pj <= 1556 /\ (0 < pj -> pi - pj <= 1555)) /\
+  (mi = X12 -> x12_run pi pj).
 Fixpoint runs_ok (sw : list (N * EncodationType)) : Prop :=
   match sw with
   | (pi, mi) :: (((pj, _) :: _) as r) => run_ok pi mi pj /\ runs_ok r
@@ -145,6 +220,7 @@ Definition AI (D : list N) (g : generic_plan) : Prop :=
     match gp_plan g with
     | PAscii p => aligned (suffix pk) (length D - N.to_nat (ap_digits_ahead p))
     | PBase256 p => bp_written p = pk - N.of_nat (length D) /\ bp_written p <= 1556 /\ (bp_written p = 1556 -> D = [])
+    | PX12 p => XI (suffix pk) (N.to_nat pk - length D) p
     | _ => True
     end.
 
@@ -171,14 +247,15 @@ Proof.
           match gp_plan g, gp_plan g' with
           | PAscii p, PAscii p' => ap_digits_ahead p' = (if 0 <? da_eff p then da_eff p - 1 else 0)
           | PBase256 p, PBase256 p' => bp_written p' = bp_written p + 1 /\ (bp_written p' <= 1556) /\ (bp_written p' = 1556 -> D = [])
-          | PC40 _, PC40 _ | PText _, PText _ | PX12 _, PX12 _ | PEdifact _, PEdifact _ => True
+          | PX12 p, PX12 p' => exists sr0, xp_step sl p = Ok (Some (sr0, p'))
+          | PC40 _, PC40 _ | PText _, PText _ | PEdifact _, PEdifact _ => True
           | _, _ => False
           end) as (SW & CU & REL).
   { destruct HT as (_ & HDa & HMo). unfold gp_step, gp_current in *. destruct (gp_plan g) as [p|p|p|p|p|p] eqn:EP; cbn [impl_ctx] in HDa.
     - destruct (ap_step_exact p ch D HDa HMo) as (p' & ES & _ & DA'). rewrite ES in E. cbn [bind] in E. inversion E. cbn [gp_switches gp_plan]. repeat split. exact DA'.
     - destruct (cp_step sl p) as [[[s1 p1]|]| |]; cbn [bind] in E; inversion E. cbn [gp_switches gp_plan]. repeat split.
     - destruct (cp_step sl p) as [[[s1 p1]|]| |]; cbn [bind] in E; inversion E. cbn [gp_switches gp_plan]. repeat split.
-    - destruct (xp_step sl p) as [[[s1 p1]|]| |]; cbn [bind] in E; inversion E. cbn [gp_switches gp_plan]. repeat split.
+    - destruct (xp_step sl p) as [[[s1 p1]|]| |] eqn:XS; cbn [bind] in E; inversion E. cbn [gp_switches gp_plan]. repeat split. eexists. reflexivity.
     - destruct (ep_step sl p) as [[[s1 p1]|]| |]; cbn [bind] in E; inversion E. cbn [gp_switches gp_plan]. repeat split.
     - unfold bp_step in E. rewrite (ctx_eat_cons _ ch D HDa) in E. cbn [bind] in E.
       destruct ((1556 <? bp_written p + 1) || ((bp_written p + 1 =? 1556) && ctx_more (ctx_write (mkctx D (c_consumed (bp_ctx p) + 1) (c_written (bp_ctx p))) 1))) eqn:C; cbn [bind] in E; inversion E.
@@ -191,6 +268,10 @@ Proof.
   destruct (gp_plan g) as [p|p|p|p|p|p] eqn:EP; destruct (gp_plan g') as [p'|p'|p'|p'|p'|p'] eqn:EP'; try contradiction; try exact I.
   - cbn [impl_ctx] in HDa. destruct (suffix_of_suffix pk (ch :: D) HS ltac:(cbn [length]; lia) L2) as [SU LE].
     exact (ascii_align_step (suffix pk) p ch D p' HDa HMo SU LE HM REL).
+  - cbn [impl_ctx] in HDa. destruct REL as (sr0 & XS). destruct (suffix_of_suffix pk (ch :: D) HS ltac:(cbn [length]; lia) L2) as [SU LE].
+    assert (length (suffix pk) = N.to_nat pk) as LS by (unfold suffix; rewrite skipn_length; fold n; lia). rewrite LS in SU, LE. cbn [length] in SU, LE.
+    replace (N.to_nat pk - length D)%nat with (S (N.to_nat pk - S (length D))) by lia.
+    apply (x12_inv_step sl (suffix pk) (N.to_nat pk - S (length D)) p ch D sr0 p' SU ltac:(rewrite LS; lia) HDa HM XS).
   - destruct HM as (W1 & W2 & W3). destruct REL as (R1 & R2 & R3). split; [rewrite R1, W1; cbn [length]; lia|]. split; [exact R2|exact R3].
 Qed.
 
@@ -205,20 +286,22 @@ Proof.
           match gp_plan g, gp_plan g' with
           | PAscii p, PAscii p' => ap_digits_ahead p' = 0
           | PBase256 p, PBase256 p' => p' = p
-          | PC40 _, PC40 _ | PText _, PText _ | PX12 _, PX12 _ | PEdifact _, PEdifact _ => True
+          | PX12 p, PX12 p' => p' = p
+          | PC40 _, PC40 _ | PText _, PText _ | PEdifact _, PEdifact _ => True
           | _, _ => False
           end) as (SW & CU & REL).
   { destruct HT as (_ & HDa & HMo). unfold gp_step, gp_current in *. destruct (gp_plan g) as [p|p|p|p|p|p] eqn:EP; cbn [impl_ctx] in HDa.
     - destruct (ap_step_nil p HDa HMo) as (ub' & p' & ES & _ & DA'). rewrite ES in E. cbn [bind] in E. inversion E. cbn [gp_switches gp_plan]. repeat split. exact DA'.
     - destruct (cp_step sl p) as [[[s1 p1]|]| |]; cbn [bind] in E; inversion E. cbn [gp_switches gp_plan]. repeat split.
     - destruct (cp_step sl p) as [[[s1 p1]|]| |]; cbn [bind] in E; inversion E. cbn [gp_switches gp_plan]. repeat split.
-    - destruct (xp_step sl p) as [[[s1 p1]|]| |]; cbn [bind] in E; inversion E. cbn [gp_switches gp_plan]. repeat split.
+    - destruct (xp_step_nil sl p HDa) as (ubx & XS). rewrite XS in E. cbn [bind] in E. inversion E. cbn [gp_switches gp_plan]. repeat split.
     - destruct (ep_step sl p) as [[[s1 p1]|]| |]; cbn [bind] in E; inversion E. cbn [gp_switches gp_plan]. repeat split.
     - rewrite (bp_step_nil p HDa) in E. cbn [bind] in E. inversion E. cbn [gp_switches gp_plan]. repeat split. }
   split; [exact HT2|]. split; [exact HS|]. split; [exact HL|]. split; [rewrite SW; exact HR|]. split; [rewrite SW; exact HH|].
   exists pk. rewrite SW, CU. split; [exact LA|]. split; [exact L1|]. split; [exact L2|]. split; [exact SP|].
   destruct (gp_plan g) as [p|p|p|p|p|p] eqn:EP; destruct (gp_plan g') as [p'|p'|p'|p'|p'|p'] eqn:EP'; try contradiction; try exact I.
   - cbn [length Nat.sub] in *. exact HM.
+  - subst p'. exact HM.
   - subst p'. exact HM.
 Qed.
 
@@ -236,7 +319,8 @@ Lemma fresh_align mode ctx D pl : c_data ctx = D ->
   match mode, pl with
   | Ascii, PAscii p => aligned D (length (tl D) - N.to_nat (ap_digits_ahead p))
   | Base256, PBase256 p => bp_written p = N.of_nat (length D) - N.of_nat (length (tl D)) /\ bp_written p <= 1556 /\ (bp_written p = 1556 -> tl D = [])
-  | C40, PC40 _ | Text, PText _ | X12, PX12 _ | Edifact, PEdifact _ => True
+  | X12, PX12 p => XI D (length D - length (tl D)) p
+  | C40, PC40 _ | Text, PText _ | Edifact, PEdifact _ => True
   | _, _ => False
   end.
 Proof.
@@ -249,7 +333,13 @@ Proof.
       cbn [ap_new ap_digits_ahead N.to_nat]. rewrite Nat.sub_0_r. constructor.
   - destruct (cp_step sl _) as [[[s1 p1]|]| |]; cbn [bind option_map snd] in E; inversion E. exact I.
   - destruct (cp_step sl _) as [[[s1 p1]|]| |]; cbn [bind option_map snd] in E; inversion E. exact I.
-  - destruct (xp_step sl _) as [[[s1 p1]|]| |]; cbn [bind option_map snd] in E; inversion E. exact I.
+  - assert (c_data (xp_ctx (xp_new ctx)) = D) as H1 by exact HD.
+    assert (XI D 0 (xp_new ctx)) as X0 by (unfold XI; cbn [xp_new xp_ascii_end xp_values firstn]; split; reflexivity).
+    destruct D as [|ch D'].
+    + destruct (xp_step_nil sl _ H1) as (ubx & XS). rewrite XS in E. cbn [bind option_map snd] in E. inversion E. cbn [tl length Nat.sub]. exact X0.
+    + destruct (xp_step sl (xp_new ctx)) as [[[s1 p1]|]| |] eqn:XS; cbn [bind option_map snd] in E; inversion E. cbn [tl length].
+      replace (S (length D') - length D')%nat with 1%nat by lia.
+      exact (x12_inv_step sl (ch :: D') 0 (xp_new ctx) ch D' s1 p1 eq_refl ltac:(cbn [length]; lia) H1 X0 XS).
   - destruct (ep_step sl _) as [[[s1 p1]|]| |]; cbn [bind option_map snd] in E; inversion E. exact I.
   - assert (c_data (bp_ctx (bp_new ctx)) = D) as H1 by exact HD. destruct D as [|ch D'].
     + rewrite (bp_step_nil _ H1) in E. cbn [option_map snd] in E. inversion E. cbn [bp_new bp_written tl length]. split; [reflexivity|]. split; [lia|discriminate].
@@ -294,6 +384,7 @@ Proof.
       inversion ES as [ES']. destruct (negb _) in ES'; [discriminate|]. inversion ES'; subst sw. split; [reflexivity|]. specialize (ST eq_refl). lia. }
     destruct mode, pl; try contradiction; try exact I.
     + rewrite SD. exact HK.
+    + rewrite SD, Nat2N.id. exact HK.
     + destruct HK as (K1 & K2 & K3). split; [exact K1|]. split; [exact K2|exact K3].
 Qed.
 
@@ -321,11 +412,18 @@ Proof.
   2:{ apply Forall_forall. intros me Hin. apply filter_In in Hin. destruct Hin as [_ Hc]. apply andb_true_iff in Hc. destruct Hc as [Hc _].
       intros EQ. rewrite EQ in Hc. unfold et_eqb in Hc. rewrite N.eqb_refl in Hc. discriminate. }
   intros EF. destruct (NST EF) as [ND LT]. split; [exact ND|]. split; [exact HR|]. split; [exact (proj1 HT)|]. split; [exact LA|]. split; [|exact HH].
-  split; [destruct SP as [SP|[_ SP]]; lia|]. split; [exact L2|]. split.
+  split; [destruct SP as [SP|[_ SP]]; lia|]. split; [exact L2|]. split; [|split].
   - intros EA. unfold gp_current in EA. unfold UL in HU. destruct (gp_plan g) as [p|p|p|p|p|p]; try discriminate.
     rewrite HU in HM. cbn [N.to_nat] in HM. rewrite Nat.sub_0_r in HM. rewrite HRe, Nat2N.id. exact HM.
   - intros EB. unfold gp_current in EB. unfold gp_mode_switch_cost in C. destruct (gp_plan g) as [p|p|p|p|p|p]; try discriminate.
     destruct HM as (W1 & W2 & W3). unfold bp_mode_switch_cost in C. destruct (N.ltb_spec 1555 (bp_written p)); [discriminate|]. rewrite HRe, <- W1. split; [lia|intros _; lia].
+  - intros EX. unfold gp_current in EX. unfold UL in HU. unfold gp_mode_switch_cost in C. destruct (gp_plan g) as [p|p|p|p|p|p]; try discriminate.
+    unfold xp_mode_switch_cost in C. destruct (N.eqb_spec (xp_values p) 0) as [V0|]; [|discriminate]. unfold XI in HM. rewrite HU in HM. destruct HM as [HV HN].
+    unfold x12_run. rewrite HRe, Nat2N.id. cbv zeta. set (cc := (N.to_nat pk - length D)%nat) in *.
+    assert (cc mod 3 = 0)%nat as C3.
+    { rewrite V0 in HV. symmetry in HV. apply N.mod_divide in HV; [|lia]. destruct HV as [q HQ]. assert (cc = (N.to_nat q * 3)%nat) as -> by lia. apply Nat.mod_mul. lia. }
+    split; [intros _; split; [exact C3|exact HN]|]. intros _. replace (3 * (cc / 3))%nat with cc; [exact HN|].
+    pose proof (Nat.div_mod cc 3 ltac:(lia)). lia.
 Qed.
 
 Lemma step_all_align rest uas modes D : rest = N.of_nat (length D) -> (uas = true -> rest = N.of_nat n) -> (uas = false -> (length D < n)%nat) ->
@@ -377,9 +475,22 @@ Proof.
   assert (0 < pk) as PK by (destruct SP as [SP|[_ SP]]; cbn [length] in SP; lia).
   assert (runs_ok (gp_switches best ++ [(0, gp_current best)])) as RO.
   { apply (runs_ok_snoc _ pk (gp_current best)); [exact HR|exact LA|exact (proj1 HT)|].
-    split; [lia|]. split; [exact L2|]. split.
+    split; [lia|]. split; [exact L2|]. split; [|split].
     - intros EA. unfold gp_current in EA. destruct (gp_plan best) as [p|p|p|p|p|p]; try discriminate. cbn [length Nat.sub N.to_nat] in *. exact HM.
-    - intros EB. unfold gp_current in EB. destruct (gp_plan best) as [p|p|p|p|p|p]; try discriminate. destruct HM as (W1 & W2 & _). cbn [length] in W1. split; [lia|lia]. }
+    - intros EB. unfold gp_current in EB. destruct (gp_plan best) as [p|p|p|p|p|p]; try discriminate. destruct HM as (W1 & W2 & _). cbn [length] in W1. split; [lia|lia].
+    - intros EX. unfold gp_current in EX. destruct (gp_plan best) as [p|p|p|p|p|p]; try discriminate. unfold x12_run. cbv zeta. cbn [N.to_nat length] in *.
+      rewrite Nat.sub_0_r in *. split; [lia|]. intros _.
+      assert (length (suffix pk) = N.to_nat pk) as LSu by (unfold suffix; rewrite skipn_length; fold n; lia).
+      assert (forall l k m, (k <= m)%nat -> natives (firstn m l) -> natives (firstn k l)) as PRE.
+      { unfold natives. induction l as [|x l IHl]; intros k m LE HN; [rewrite firstn_nil; reflexivity|]. destruct k as [|k]; [reflexivity|]. destruct m as [|m]; [lia|].
+        cbn [firstn forallb] in *. apply andb_true_iff in HN. destruct HN as [A B]. rewrite A. cbn [andb]. apply (IHl k m); [lia|exact B]. }
+      unfold XI in HM. pose proof (Nat.div_mod (N.to_nat pk) 3 ltac:(lia)) as DM. pose proof (Nat.mod_upper_bound (N.to_nat pk) 3 ltac:(lia)) as MB.
+      destruct (xp_ascii_end p).
+      + destruct HM as (c0 & X1 & X2 & X3 & X4). rewrite LSu in X3. replace (3 * (N.to_nat pk / 3))%nat with c0; [exact X4|].
+        pose proof (Nat.div_mod c0 3 ltac:(lia)) as DM0. rewrite X2 in DM0. assert (c0 / 3 = N.to_nat pk / 3)%nat; [|lia].
+        assert (3 * (c0 / 3) <= N.to_nat pk /\ N.to_nat pk < 3 * (c0 / 3) + 3)%nat as [B1 B2] by lia.
+        apply (Nat.div_unique (N.to_nat pk) 3 (c0 / 3) (N.to_nat pk - 3 * (c0 / 3))); lia.
+      + destruct HM as [_ HN]. apply (PRE _ _ (N.to_nat pk)); [lia|exact HN]. }
   assert (alt_ok (gp_switches best ++ [(0, gp_current best)])) as AO.
   { apply (alt_ok_snoc _ pk (gp_current best)); [exact HAlt|exact LA|exact (proj1 HT)|reflexivity]. }
   destruct (gp_switches best) as [|[n0 m0] r0] eqn:ES; [exfalso; exact (proj1 HT ES)|]. cbn [hd fst] in HH. subst n0.
@@ -443,6 +554,7 @@ Proof.
     exists (N.of_nat n). split; [cbn [last]; f_equal; unfold gp_current; destruct mode; reflexivity|]. split; [unfold n; lia|]. split; [lia|]. split; [right; split; reflexivity|].
     rewrite suffix_n. unfold gp_for_mode. destruct mode; cbn [gp_plan]; try exact I.
     - cbn [ap_new ap_digits_ahead N.to_nat]. rewrite Nat.sub_0_r. constructor.
+    - rewrite Nat2N.id. fold n. rewrite Nat.sub_diag. unfold XI. cbn [xp_new xp_ascii_end xp_values firstn]. split; reflexivity.
     - cbn [bp_new bp_written]. fold n. split; [lia|]. split; [lia|discriminate]. }
   assert (UL (gp_for_mode mode data written)) as HU by (unfold UL, gp_for_mode; destruct mode; reflexivity).
   destruct (enabled modes mode).
